@@ -72,6 +72,7 @@ pub fn generate(seed: u64, index: u64, thorough: bool) -> Scenario {
             });
         }
     }
+    add_zero_sign_pairs(&mut sc, &mut Rng::new(mix(seed, "C02-zero-sign", index)));
     // the FitResult is kept after a fit: update the problem inside it and ask the result's
     // accessors again (own PRNG stream: the rest of the scenario stays as it was)
     let mut r2 = Rng::new(mix(seed, "C02-result-view", index));
